@@ -7,13 +7,12 @@ part of the real NL reader (`include/mp/nl-reader.h`, `NLProblemBuilder::AddVari
 that decodes what the feeder writes.  Numbers are exact rationals (the correspondence uses dyadic
 data so the C++ double arithmetic is exact).  Core Lean only.
 
-Quirks of the code as it exists that the model reproduces on purpose (see design_notes/C08.md):
-* `FillNonlinearVars` increments `num_nl_vars_in_objs` once per Hessian *nonzero* and flags only
-  the `index_` (column) variable of an entry as nonlinear;
-* `FeedObjExpression` writes a `sum` node with `nnz + (c0 ≠ 0)` arguments, also when that is < 3
-  (the NL reader rejects such a node);
-* `ComputeObjValue` dereferences the linear coefficient pointer without a null test;
-* the C wrapper `NLW2_SetDualWarmstart_C` calls `SetWarmstart`;
+This is the model of the code AFTER repo_patches/C08-easy-api-fixes.diff (branch agent-C08-fixed):
+* `FillNonlinearVars` flags the row and the column variable of every Hessian entry and sets
+  `num_nl_vars_in_objs` to the number of flagged variables;
+* `FeedObjExpression` pads the `sum` node with `n0` to at least 3 arguments;
+* `ComputeObjValue` skips the linear part when the coefficient pointer is null;
+* the C wrapper `NLW2_SetDualWarmstart_C` calls `SetDualWarmstart`;
 * the declared Hessian format is never consulted.
 -/
 
@@ -67,11 +66,27 @@ def Csr.nnz (q : Csr) : Nat := q.index.length
 
 /-! ## Init(): FillNonlinearVars, PermuteVars, FillObjNonzeros, FillColSizes, FillHeader -/
 
-/-- `nlv_obj_[j]` after `FillNonlinearVars`: set for every `Q.index_[i]` -/
-def nlv (m : MatrixModel) (j : Nat) : Bool := m.Q.index.contains j
+/-- the row walk shared by `FeedObjExpression`, `FillObjNonzeros`, `ComputeObjValue`:
+`for (i = n; i--; ) { for (pos = start[i]; pos != pos_end; ++pos) …; pos_end = start[i]; }`,
+as the list of `(row, pos)` visited -/
+def walkDesc (start : List Nat) : Nat → Nat → List (Nat × Nat)
+  | 0, _ => []
+  | i + 1, posEnd =>
+    let s := start.getD i 0
+    (List.range' s (posEnd - s)).map (fun p => (i, p)) ++ walkDesc start i s
 
-/-- `header_.num_nl_vars_in_objs`: incremented once per Hessian nonzero -/
-def nlvo (m : MatrixModel) : Nat := m.Q.nnz
+/-- every walk over `Q` in the code is guarded by `if (Q.num_nz_)` -/
+def qEntries (m : MatrixModel) : List (Nat × Nat) :=
+  if m.Q.nnz = 0 then [] else walkDesc m.Q.start m.n m.Q.nnz
+
+def qCol (m : MatrixModel) (pos : Nat) : Nat := m.Q.index.getD pos 0
+def qVal (m : MatrixModel) (pos : Nat) : Rat := m.Q.value.getD pos 0
+
+/-- `nlv_obj_[j]` after `FillNonlinearVars`: set for the row and the column variable of every entry -/
+def nlv (m : MatrixModel) (j : Nat) : Bool := (qEntries m).any (fun e => e.1 == j || qCol m e.2 == j)
+
+/-- `header_.num_nl_vars_in_objs`: number of flagged variables -/
+def nlvo (m : MatrixModel) : Nat := (List.range m.n).countP (nlv m)
 
 def isInt (m : MatrixModel) (j : Nat) : Bool :=
   match m.types with
@@ -108,22 +123,6 @@ def vpermInv (m : MatrixModel) (i : Nat) : Nat := (order m).getD i 0
 /-- `VPerm(j)`: NL position of caller variable `j` (the reverse mapping loop) -/
 def vperm (m : MatrixModel) (j : Nat) : Nat := (order m).idxOf j
 
-/-- the row walk shared by `FeedObjExpression`, `FillObjNonzeros`, `ComputeObjValue`:
-`for (i = n; i--; ) { for (pos = start[i]; pos != pos_end; ++pos) …; pos_end = start[i]; }`,
-as the list of `(row, pos)` visited -/
-def walkDesc (start : List Nat) : Nat → Nat → List (Nat × Nat)
-  | 0, _ => []
-  | i + 1, posEnd =>
-    let s := start.getD i 0
-    (List.range' s (posEnd - s)).map (fun p => (i, p)) ++ walkDesc start i s
-
-/-- every walk over `Q` in the code is guarded by `if (Q.num_nz_)` -/
-def qEntries (m : MatrixModel) : List (Nat × Nat) :=
-  if m.Q.nnz = 0 then [] else walkDesc m.Q.start m.n m.Q.nnz
-
-def qCol (m : MatrixModel) (pos : Nat) : Nat := m.Q.index.getD pos 0
-def qVal (m : MatrixModel) (pos : Nat) : Rat := m.Q.value.getD pos 0
-
 def cCoef (m : MatrixModel) (j : Nat) : Rat :=
   match m.c with
   | none => 0
@@ -131,7 +130,7 @@ def cCoef (m : MatrixModel) (j : Nat) : Rat :=
 
 /-- `obj_grad_supp_[j]` after `FillObjNonzeros` -/
 def supp (m : MatrixModel) (j : Nat) : Bool :=
-  cCoef m j != 0 || (qEntries m).any (fun e => e.1 == j || qCol m e.2 == j)
+  cCoef m j != 0 || nlv m j
 
 def numObjNonzeros (m : MatrixModel) : Nat := (List.range m.n).countP (supp m)
 
@@ -184,10 +183,13 @@ def feedObjGradient (m : MatrixModel) : List (Nat × Rat) :=
 def qTerm (m : MatrixModel) (e : Nat × Nat) : Expr :=
   .mul (.num (qVal m e.2 / 2)) (.mul (.var (vperm m e.1)) (.var (vperm m (qCol m e.2))))
 
+/-- number of `n0` arguments added so that the `sum` node has at least 3 -/
+def numPad (m : MatrixModel) : Nat := 3 - ((if m.c0 != 0 then 1 else 0) + m.Q.nnz)
+
 /-- `FeedObjExpression` -/
 def feedObjExpr (m : MatrixModel) : Expr :=
   if m.Q.nnz = 0 then .num m.c0
-  else .sum ((if m.c0 != 0 then [.num m.c0] else []) ++ (qEntries m).map (qTerm m))
+  else .sum ((if m.c0 != 0 then [.num m.c0] else []) ++ List.replicate (numPad m) (.num 0) ++ (qEntries m).map (qTerm m))
 
 /-- `FeedVarBounds` -/
 def feedVarBounds (m : MatrixModel) : List (Bnd × Bnd) :=
@@ -207,13 +209,10 @@ def feedLinearConExpr (m : MatrixModel) (i : Nat) : List (Nat × Rat) :=
 def feedColumnSizes (m : MatrixModel) : List Nat :=
   (List.range (m.n - 1)).map (fun i => colSize m (vpermInv m i))
 
-/-- primal warm start as stored in the NLModel: the C wrapper routes the dual warm start into
-`SetWarmstart` (overwriting the primal one) -/
-def effWs (m : MatrixModel) : List (Nat × Rat) :=
-  if m.api = 1 && !m.dws.isEmpty then m.dws else m.ws
+/-- primal / dual warm start as stored in the NLModel (same through both APIs) -/
+def effWs (m : MatrixModel) : List (Nat × Rat) := m.ws
 
-def effDws (m : MatrixModel) : List (Nat × Rat) :=
-  if m.api = 1 then [] else m.dws
+def effDws (m : MatrixModel) : List (Nat × Rat) := m.dws
 
 /-- `FeedInitialGuesses` -/
 def feedInitialGuesses (m : MatrixModel) : List (Nat × Rat) :=
@@ -263,7 +262,7 @@ def decodeIsInt (h : Header) (pos : Nat) : Bool :=
   else decide (h.nlvo - h.nlvoi ≤ pos) && decide (pos < h.nlvo)
 
 /-- number of arguments of the `sum` node; the reader demands at least 3 (`ReadNumArgs`) -/
-def sumArity (m : MatrixModel) : Nat := (if m.c0 != 0 then 1 else 0) + m.Q.nnz
+def sumArity (m : MatrixModel) : Nat := (if m.c0 != 0 then 1 else 0) + m.Q.nnz + numPad m
 
 def readable (m : MatrixModel) : Bool := decide (m.Q.nnz = 0) || decide (3 ≤ sumArity m)
 
@@ -301,13 +300,10 @@ def objSpec (m : MatrixModel) (x : Nat → Rat) : Rat :=
   m.c0 + ((List.range m.n).map (fun j => cCoef m j * x j)).sum +
   ((entriesAsc m.Q.start m.n m.Q.nnz).map (fun e => qVal m e.2 / 2 * x e.1 * x (qCol m e.2))).sum
 
-/-- `NLModel::ComputeObjValue`; `none` = null pointer dereference (`obj_c_ == nullptr`) -/
+/-- `NLModel::ComputeObjValue` (`some`: kept as an option so that the driver is unchanged) -/
 def computeObjValue (m : MatrixModel) (x : Nat → Rat) : Option Rat :=
-  match m.c with
-  | none => if m.n = 0 then some (m.c0 + ((qEntries m).map (fun e => qVal m e.2 / 2 * x e.1 * x (qCol m e.2))).sum) else none
-  | some c =>
-    let lin := ((List.range m.n).reverse.map (fun j => c.getD j 0 * x j)).foldl (· + ·) m.c0
-    some (((qEntries m).map (fun e => qVal m e.2 / 2 * x e.1 * x (qCol m e.2))).foldl (· + ·) lin)
+  let lin := ((List.range m.n).reverse.map (fun j => cCoef m j * x j)).foldl (· + ·) m.c0
+  some (((qEntries m).map (fun e => qVal m e.2 / 2 * x e.1 * x (qCol m e.2))).foldl (· + ·) lin)
 
 /-! ## SOLHandler_Easy -/
 
